@@ -1,9 +1,10 @@
 (* C12 - hover describes the element under the cursor and its range contains the cursor.
    Model: Model/Hover.v (hoverAtPos at body level) and Model/ValueHover.v (which sub-expression of a value answers,
-   i.e. the range of the hover data, for every constraint and expression kind), compared with HoverAtPos on every run. *)
+   i.e. the range of the hover data, for every constraint and expression kind) and Model/TypeHover.v (what the hover on a
+   reference says: address, type description, target description), compared with HoverAtPos on every run. *)
 From Coq Require Import String List ZArith Bool.
 From HV Require Import Base.Sexp Base.Pos Model.Schema Model.Ast Model.Merge Model.Hover Model.Origins Model.ValueTokens Model.ValueHover
-                       Proofs.HoverProofs Proofs.ValueTokensProofs Proofs.ValueHoverProofs.
+                       Proofs.HoverProofs Proofs.ValueTokensProofs Proofs.ValueHoverProofs Model.TypeHover Proofs.TypeHoverProofs.
 
 (* whenever hover data is returned for an attribute name, block type or label - at any nesting
    depth - its range contains the cursor *)
@@ -33,3 +34,22 @@ Theorem C12_value_hover_range_contains_cursor : forall funcs vals parens opens t
   value_hover funcs vals parens opens typeok p fuel c e = Some (Some r) -> contains_pos r p = true.
 Proof. exact value_hover_contains_cursor. Qed.
 Print Assumptions C12_value_hover_range_contains_cursor.
+
+(* the hover on a reference names it: the content begins with the address, in backquotes *)
+Theorem C12_reference_hover_names_the_address : forall addr name t desc,
+  String.prefix ("`" ++ addr ++ "`") (reference_hover_content addr name t desc) = true.
+Proof. exact reference_hover_names_the_address. Qed.
+Print Assumptions C12_reference_hover_names_the_address.
+
+(* every type is described by a non-empty text *)
+Theorem C12_type_description_not_empty : forall f t lvl,
+  t <> TNil -> exists c, type_content (S f) t lvl = Some c /\ c <> ""%string.
+Proof. exact type_content_defined. Qed.
+Print Assumptions C12_type_description_not_empty.
+
+(* the description of an object type does not depend on the order in which the type's attribute map is visited *)
+Theorem C12_object_description_independent_of_map_order : forall f ats ats' lvl,
+  NoDup (map fst ats) -> Permutation.Permutation ats ats' ->
+  type_content f (TObject ats) lvl = type_content f (TObject ats') lvl.
+Proof. exact object_content_independent_of_map_order. Qed.
+Print Assumptions C12_object_description_independent_of_map_order.
